@@ -374,6 +374,10 @@ def check_C01(tier: str, v: Verdict):
         recs = gen_eval_records(rng, 2500, [((2, 2), 1), ((4,), 1)], cfg_fn)
     else:
         recs = gen_eval_records(rng, 30000, [((2, 2), 2), ((4,), 2), ((2, 2, 2), 1)], cfg_fn)
+    recs += replay_pipeline_behaviours(v, "MC_Pipeline_quick.cfg", (2, 2), 150 if tier == "quick" else 1500, seed() + 11)
+    if tier == "thorough":
+        recs += replay_pipeline_behaviours(v, "MC_Pipeline_thoroughall.cfg", (2, 2), 1500, seed() + 12)
+        recs += replay_pipeline_behaviours(v, "MC_Pipeline_thorough3d.cfg", (2, 2, 2), 800, seed() + 13)
     _count_cov(v, recs, _eval_key, lambda r: any(r["pred"]) and any(r["ref"]))
     v.cov["rule"] = ("label-map pairs (exhaustive tiny grids + seeded random 1-D/2-D/3-D) x input type x backend x matching "
                      "metric/threshold x decision metric/threshold x handler; distinct by (arrays, config); non-trivial = both sides non-empty")
@@ -540,3 +544,94 @@ def check_C13(tier: str, v: Verdict):
     _sample(v, recs)
     validate_traces(v, "Trace_Eval", EVAL_C13, recs, site_eval, what_fn=what_eval)
     v.assumptions += ["TLC, CommunityModules", "global ASSD judged at 1e-3 resolution"]
+
+
+# --------------------------------------------------------------------------------------
+# (S -> C) behaviours of Pipeline.tla replayed into evaluate(), phase by phase
+# --------------------------------------------------------------------------------------
+def _canon_partition(arr: np.ndarray, union: np.ndarray):
+    """partition of arr's foreground, in coordinates relative to the bounding box of `union`"""
+    if not union.any():
+        return frozenset()
+    idx = np.argwhere(union)
+    lo = idx.min(axis=0)
+    parts = {}
+    for p in np.argwhere(arr != 0):
+        parts.setdefault(int(arr[tuple(p)]), set()).add(tuple(int(x) for x in (p - lo)))
+    return frozenset(frozenset(s) for s in parts.values())
+
+
+def replay_pipeline_behaviours(v: Verdict, cfg_file: str, shape, num: int, sd: int):
+    """tlc -simulate on Pipeline.tla; every behaviour (input, configuration, unmatched pair, label map,
+    matched pair, result) is replayed into Panoptica_Evaluator.evaluate: the unmatched instance pair the
+    code exposes must have the specification's partitions, and the result the specification's counts and
+    score bags - unless a tie made the code take another allowed order (then the record, which is also
+    handed to Trace_Eval, must still be one of the allowed answers)."""
+    import shutil
+    from fractions import Fraction
+    from . import common
+    from .behaviours import parse_behaviour_file
+    from .common import run_tlc, Machinery
+    from .rec_pipeline import make_evaluator, INPUT
+    from .drive import quiet
+    from panoptica import InputType, Metric, MetricMode
+    sdir = common.scratch("sim-pipe")
+    recs, followed, tie_div = [], 0, 0
+    try:
+        r = run_tlc("MC_Pipeline", cfg_file, simulate=f"file={sdir / 'b'},num={num}", depth=16, workers=1, cont=False,
+                    extra=["-seed", str(sd)], timeout=900)
+        v.add_tlc(r)
+        files = sorted(sdir.glob("b_*"))
+        if not files:
+            raise Machinery(f"no behaviours simulated from {cfg_file}: {r.raw[-500:]}")
+        for f in files:
+            beh = parse_behaviour_file(f)
+            last = beh[-1][1]
+            if last["pc"] != "result":
+                continue
+            c = last["cfg"]
+            cfg = default_cfg(input=c["input"], backend=c["backend"], matcher=c["matcher"], mm=c["mm"], thr=list(c["thr"]), dm=c["dm"],
+                              dthr=list(c["dthr"]), im=sorted(c["im"]), gm=sorted(c["gm"]), h={"zt": {**DEFAULT_H["zt"], **c["h"]["zt"]}, "estd": c["h"]["estd"]})
+            pred = np.array(last["inp"]["pred"], dtype=np.uint8).reshape(shape)
+            ref = np.array(last["inp"]["ref"], dtype=np.uint8).reshape(shape)
+            rec = rec_evaluate(pred, ref, cfg, meta={"gen": "tlc-behaviour"})
+            recs.append(rec)
+            # phase 1: the unmatched instance pair
+            unm = next((s["unm"] for _, s in beh if s["pc"] in ("unmatched", "scan", "matched") and "pr" in s["unm"]), None)
+            ok = rec["out"] == "ok"
+            if ok and unm is not None and c["input"] != "MAT":
+                try:
+                    with quiet():
+                        out = make_evaluator(cfg).evaluate(pred.copy(), ref.copy(), verbose=False)["ungrouped"]
+                    steps = out[1]
+                    cp = np.asarray(steps.prediction_arr(InputType.UNMATCHED_INSTANCE))
+                    cr = np.asarray(steps.reference_arr(InputType.UNMATCHED_INSTANCE))
+                    sp = np.array(unm["pr"]).reshape(shape)
+                    sr = np.array(unm["rf"]).reshape(shape)
+                    same = (_canon_partition(cp, (cp != 0) | (cr != 0)) == _canon_partition(sp, (sp != 0) | (sr != 0))
+                            and _canon_partition(cr, (cp != 0) | (cr != 0)) == _canon_partition(sr, (sp != 0) | (sr != 0)))
+                    if not same:
+                        v.violation("S2C_UnmatchedPhase", site_eval(rec, "S2C_UnmatchedPhase"), {"spec": "Trace_Eval", "invariants": EVAL_C01, "record": rec,
+                                                                                                "spec_unm": {"pr": list(unm["pr"]), "rf": list(unm["rf"])}},
+                                    what="the unmatched instance pair exposed by evaluate() differs from the specification's state " + what_eval(rec, ""))
+                        ok = False
+                except Exception as e:  # noqa: BLE001   (API for intermediate steps not available: only the result is compared)
+                    v.notes.append(f"intermediate steps not comparable: {type(e).__name__}")
+            # final result: counts and exact score bags
+            if ok:
+                sres, cres = last["res"], rec["res"]
+                same = (sres["tp"] == cres["tp"] and sres["fp"] == cres["fp"] and sres["fn"] == cres["fn"]
+                        and sres["nP"] == cres["npred"] and sres["nR"] == cres["nref"])
+                for m in ("IOU", "DSC", "RVD"):
+                    a = sorted(Fraction(x["lo"][0], x["lo"][1]) for x in sres["lists"][m])
+                    b = sorted(Fraction(x["v"][0], x["v"][1]) for x in cres["lists"][m] if x["k"] == "rat")
+                    same = same and a == b
+                if same:
+                    followed += 1
+                else:
+                    tie_div += 1
+    finally:
+        shutil.rmtree(sdir, ignore_errors=True)
+    v.cov["spec_behaviours_replayed"] = v.cov.get("spec_behaviours_replayed", 0) + followed
+    v.cov["spec_behaviours_other_tie_order"] = v.cov.get("spec_behaviours_other_tie_order", 0) + tie_div
+    return recs
